@@ -21,6 +21,7 @@ EXPLANATION = (
     "probability is 1.0. Convergence of frequencies and evidence consistency of samples are not decided."
     " Added after seed round 6: M8 verify_evidence gives an undrawn disjunction atom weight 0 when its group is closed and 1 when it is open, from the sampler's group record."
     " Added after seed round 7: M9 facts fixed by propagated evidence keep the remaining fields of their atom node (the group) and get weight 1.0 / 0.0 by truth value."
+    " Added after seed round 8: M9/M10 evidence-fixed facts reach the sampler as (identifier, value) + the rest of their atom node, and a disjunction head that is ruled out lowers the remaining mass of its group by its own probability."
 )
 TECHNIQUE = "static analysis: path-wise decision-table extraction (draw/accounting pairing)"
 LEVEL_TEXT = EXPLANATION
